@@ -300,16 +300,28 @@ def private(ctx, srv, rng, nsess, nops, salt):
     recs = [Recorder(srv.address, salt * 100 + i) for i in range(nsess)]
     seeds = [rng.getrandbits(32) for _ in recs]
     last = {}
+    lost = {}
 
     def worker(r, seed, k):
         import random
         rr = random.Random(seed)
         mine = None
         for j in range(nops):
+            # nobody else writes this slice: whenever its owner reads it -- right after a write, and again before the next one -- it
+            # must hold the owner's last acknowledged write (a lost update shows at the first read after it)
+            if mine is not None:
+                rep = r.do(rd('P', 8 * k, 8), 'P')
+                got = rep['read_tag']['data'] if rep and rep['status'] == 0 else None
+                if got != mine and k not in lost:
+                    lost[k] = (j, 'before the next write', got, mine)
             vals = [rr.randrange(-2**31, 2**31) for _ in range(8)]
             rep = r.do(wr('P', 8 * k, vals), 'P')
             if rep is not None and rep['status'] == 0:
                 mine = vals
+                rep = r.do(rd('P', 8 * k, 8), 'P')
+                got = rep['read_tag']['data'] if rep and rep['status'] == 0 else None
+                if got != mine and k not in lost:
+                    lost[k] = (j, 'right after the write', got, mine)
             if rr.random() < 0.3:
                 r.do(rd('P', 0, 96), 'P')
         rep = r.do(rd('P', 8 * k, 8), 'P')
@@ -327,6 +339,10 @@ def private(ctx, srv, rng, nsess, nops, salt):
     ctx.count('histories:private')
     ctx.count('ops', len(ops))
     ctx.count('overlapping-pairs', overlapping_pairs(ops))
+    for k, (j, when, got, mine) in sorted(lost.items()):
+        ctx.violation('write-to-private-elements-lost', 'session %d, round %d, %s: its own slice reads %r, its last acknowledged write was %r (no other session writes these elements)' % (
+            k, j, when, got, mine), dict(wit, session=k))
+        return
     for k, (mine, got) in last.items():
         ctx.count('monitor:private-slice')
         if mine is not None and got != mine:
@@ -431,9 +447,10 @@ def run(ctx):
             srv.stop()
         account(ctx, srv)
         # (2) server with LINE-level yield injection (slow, so short): widens the windows between the statements of one request
-        srv = Server(yield_p=0.02)
+        srv = Server(yield_p=0.02, switch=1e-4)
         try:
             uniform(ctx, srv, rng, nsess=6, nops=40 if quick else 80, salt=salt + 8)
+            private(ctx, srv, rng, nsess=6, nops=12 if quick else 30, salt=salt + 11)      # lost updates need the window inside the store
             if not quick:
                 for m in range(10):
                     if ctx.expired():
